@@ -33,8 +33,8 @@ def _comps(p):
 
 def _history(subject):
     pref = st.lists(st.sampled_from(ALPHABET), min_size=0, max_size=3)
-    attach = st.fixed_dictionaries({'op': st.just('attach'), 'p': pref, 'rep': st.integers(0, 6),
-                                    'val': st.sampled_from([None, None, 'pass', 'fail'])})
+    attach = st.fixed_dictionaries({'op': st.just('attach'), 'p': pref, 'rep': st.integers(0, 10),
+                                    'val': st.sampled_from([None, None, 'pass', 'fail', 'slow-pass'])})
     attach_dup = st.fixed_dictionaries({'op': st.just('attach'), 'k': st.integers(0, 7), 'rep': st.integers(0, 6),
                                         'val': st.sampled_from(['pass', 'fail', None])})
     detach = st.fixed_dictionaries({'op': st.just('detach'), 'p': pref, 'rep': st.integers(0, 6)})
@@ -98,8 +98,27 @@ def _run(subj, sim, ops, r):
                 calls.append({'hid': hid, 'name': [bytes(c) for c in name], 't': sim.vl.now_ms() if sim else 0})
         return h
 
+    def _mutable_arg(key, rep):
+        """rep 7..9: the caller's name lives in mutable buffers which the caller overwrites right after the call"""
+        bufs = [bytearray(c) for c in key]
+        if rep == 7:
+            return bufs, bufs
+        if rep == 8:
+            return [memoryview(b) for b in bufs], bufs
+        whole = bytearray(T.enc_tlv(7, b''.join(key)))
+        return (memoryview(whole) if rep == 9 else whole), [whole]
+
+    def _scribble(bufs):
+        for b in bufs:
+            for i in range(len(b)):
+                b[i] = 0x5a
+
     def do_attach(key, rep, val=None):
-        arg = P.name_in_rep([[T.read_num(c, 0, len(c))[0], bytes(c[T.read_tlv(c, 0, len(c))[2]:]).hex()] for c in key], rep)
+        scratch = None
+        if rep >= 7:
+            arg, scratch = _mutable_arg(key, rep)
+        else:
+            arg = P.name_in_rep([[T.read_num(c, 0, len(c))[0], bytes(c[T.read_tlv(c, 0, len(c))[2]:]).hex()] for c in key], rep)
         gen[0] += 1
         h = make_handler(gen[0])
         if subj == 'v2':
@@ -107,12 +126,24 @@ def _run(subj, sim, ops, r):
             validator = None
             if val is not None:
                 async def validator(_n, _s, _c, val=val):
-                    return ValidResult.PASS if val == 'pass' else ValidResult.FAIL
-            sim.vl.call(sim.app.attach_handler, arg, h, validator)
-        elif subj == 'legacy':
-            sim.vl.call(sim.app.set_interest_filter, arg, h)
-        else:
-            disp.register(arg, h)
+                    if val == 'slow-pass':
+                        import asyncio
+                        await asyncio.sleep(0.03)
+                    return ValidResult.FAIL if val == 'fail' else ValidResult.PASS
+            try:
+                sim.vl.call(sim.app.attach_handler, arg, h, validator)
+            finally:
+                if scratch:
+                    _scribble(scratch)
+            return gen[0]
+        try:
+            if subj == 'legacy':
+                sim.vl.call(sim.app.set_interest_filter, arg, h)
+            else:
+                disp.register(arg, h)
+        finally:
+            if scratch:
+                _scribble(scratch)
         return gen[0]
 
     def do_detach(key, rep):
@@ -145,17 +176,17 @@ def _run(subj, sim, ops, r):
             except ValueError as e:
                 raised = e
             except Exception as e:
-                r.bad(f'C04/{subj}/attach-raised/{exc_site(e)}', f'{e!r} prefix={op["p"]} rep={op["rep"]}')
+                r.bad(f'C04/{subj}/attach-raised/{exc_site(e)}', f'{e!r} prefix={[bytes(c).hex() for c in key]} rep={op["rep"]}')
                 return
             if key in model:
                 trace.append('A!')
                 if raised is None:
-                    r.bad(f'C04/{subj}/duplicate-attach-accepted', f'prefix {op["p"]} rep={op["rep"]}')
+                    r.bad(f'C04/{subj}/duplicate-attach-accepted', f'prefix {[bytes(c).hex() for c in key]} rep={op["rep"]}')
                     return
             else:
                 trace.append('A')
                 if raised is not None:
-                    r.bad(f'C04/{subj}/attach-refused', f'{raised!r} prefix {op["p"]} rep={op["rep"]}')
+                    r.bad(f'C04/{subj}/attach-refused', f'{raised!r} prefix {[bytes(c).hex() for c in key]} rep={op["rep"]}')
                     return
                 model[key] = hid
                 validators[key] = op.get('val')
@@ -210,19 +241,22 @@ def _run(subj, sim, ops, r):
                 wire = net.interest_wire(name, lifetime=op['life'], nonce=7, app_param=b'p' if params else None)
                 if params and want is not None:
                     name = name + [T.enc_tlv(2, P.strict_interest(wire)['digest_comp'])]
-                    if validators.get(tuple(name[:depth])) != 'pass':
+                    if validators.get(tuple(name[:depth])) not in ('pass', 'slow-pass'):
                         want = None       # no validator / rejecting validator: dropped
                         flags.add('validator-drop')
                 if down:
                     continue
+                t_arrival = sim.vl.now_ms()
                 sim.deliver(wire, op['mode'])
-                sim.vl.advance(0)
+                sim.vl.advance(0.031 if params and want is not None and validators.get(tuple(name[:depth])) == 'slow-pass' else 0)
                 if sim.receive_errors:
                     r.bad(f'C04/{subj}/receive-raised/{sim.receive_errors[0].split(":")[0]}', sim.receive_errors[0])
                     return
             new = calls[before:]
             for c in new:
                 c['life'] = op['life'] if op['life'] is not None else 4000
+                if subj != 'dispatcher':
+                    c['t'] = t_arrival      # the lifetime counts from the Interest's arrival, not from the end of its validation
             got = [c['hid'] for c in new]
             trace.append('I' if want is not None else 'i')
             if want is None:
